@@ -60,6 +60,16 @@ func (j *judge) explore(nodes map[string]*node, bp BatchProject, seed, pidx uint
 			if prm.Type.Kind != "enum" || prm.Loc == "body" || prm.Loc == "context" {
 				continue
 			}
+			// member sweep: every declared constant of the enum once, all else plain
+			for _, lit := range pl.enumOf(prm.Type) {
+				mraw := lit
+				if prm.Type.Prim == "string" {
+					mraw = strings.Trim(lit, `"`)
+				}
+				if mc, ok := convert(prm.Type.Prim, mraw); ok {
+					add(pl.buildForced(ri, "value-sweep", nil, false, map[string][]WireVal{prm.GoName: {{Raw: mraw, Canon: mc, Class: "enum-member", OK: true}}}))
+				}
+			}
 			raw := "zz-not-a-member"
 			if prm.Type.Prim != "string" {
 				raw = "97"
